@@ -249,9 +249,11 @@ theorem undelegs_stake (e : HubEnv) (claim : Nat) (ms : List Msg) (he : e.self =
 /-- **One hub message, on the books.** If the booked stake is at most `T` = the delegated stake the
     hub sees, then after any accepted hub message the emitted list is (staking messages) ++ (others)
     and  booked' + undelegations emitted ≤ T + delegations emitted. -/
-theorem hub_books_step (h h' : HubSt) (e : HubEnv) (sender : Addr) (funds : List (Denom × Nat))
+theorem hub_books_stepG (h h' : HubSt) (e : HubEnv) (sender : Addr) (funds : List (Denom × Nat))
     (m : HubMsg) (ms : List Msg) (T : Nat) (he : e.self = hubA)
-    (hT : (e.delegations.map (·.2)).sum = T) (hinv : h.bBond + h.sBond ≤ T)
+    (hT : (e.delegations.map (·.2)).sum = T)
+    (hinv : h.bBond + h.sBond ≤ T ∨ ((m = .bond ∨ m = .bondForStSei ∨ ∃ u a k, m = .receive u a k) ∧
+      e.delegations ≠ [] ∧ h.bBond + h.sBond ≠ 0))
     (hx : hubExec h e sender funds m = .ok (h', ms)) :
     ∃ pre rest, ms = pre ++ rest ∧ (∀ x ∈ pre, isStake x = true) ∧ (∀ x ∈ rest, isStake x = false) ∧
       h'.bBond + h'.sBond + undelSum pre ≤ T + delSum pre := by
@@ -259,13 +261,26 @@ theorem hub_books_step (h h' : HubSt) (e : HubEnv) (sender : Addr) (funds : List
   have act : ∀ st, h.actualState e = .ok st → st.bBond + st.sBond ≤ T := by
     intro st hst
     have hs := actualState_spec h st e hst
-    rcases hs.2 with ⟨_, heq⟩ | ⟨bs, ss, _, _, _, _, _, _, hcase⟩
-    · subst heq; exact hinv
+    rcases hs.2 with ⟨hdeg, heq⟩ | ⟨bs, ss, _, _, _, _, _, _, hcase⟩
+    · subst heq
+      rcases hinv with h1 | ⟨_, h2, h3⟩
+      · exact h1
+      · rcases hdeg with hdeg | hdeg
+        · exact absurd hdeg h2
+        · exact absurd hdeg h3
     · rcases hcase with ⟨_, hb, hsb⟩ | ⟨_, _, hsum⟩ <;> omega
   have plain : ∀ {x : HubSt} (rest : List Msg), x.bBond + x.sBond ≤ T → (∀ y ∈ rest, isStake y = false) →
       ∃ pre rest', rest = pre ++ rest' ∧ (∀ y ∈ pre, isStake y = true) ∧ (∀ y ∈ rest', isStake y = false) ∧
         x.bBond + x.sBond + undelSum pre ≤ T + delSum pre :=
     fun rest hb hr => ⟨[], rest, rfl, (fun _ hm => by cases hm), hr, (by simp [undelSum, delSum]; exact hb)⟩
+  have nt : (m ≠ .bond ∧ m ≠ .bondForStSei ∧ ∀ u a k, m ≠ .receive u a k) → h.bBond + h.sBond ≤ T := by
+    intro hn
+    rcases hinv with h1 | ⟨ht, _⟩
+    · exact h1
+    · rcases ht with r | r | ⟨u, a, k, r⟩
+      · exact absurd r hn.1
+      · exact absurd r hn.2.1
+      · exact absurd r (hn.2.2 u a k)
   cases m with
   | migrateWaitList limit =>
     simp only [hubExec] at hx
@@ -276,7 +291,7 @@ theorem hub_books_step (h h' : HubSt) (e : HubEnv) (sender : Addr) (funds : List
       unfold migrate
       simp only []
       split
-      · exact hinv
+      · exact (nt ⟨nofun, nofun, fun _ _ _ => nofun⟩)
       · show (List.foldl migrateOne h _).bBond + (List.foldl migrateOne h _).sBond ≤ T
         have : ∀ (l : List (Addr × Nat × Nat)) (x : HubSt), (l.foldl migrateOne x).bBond = x.bBond ∧
             (l.foldl migrateOne x).sBond = x.sBond := by
@@ -284,7 +299,7 @@ theorem hub_books_step (h h' : HubSt) (e : HubEnv) (sender : Addr) (funds : List
           induction l with
           | nil => intro x; exact ⟨rfl, rfl⟩
           | cons a l ih => intro x; simp only [List.foldl_cons]; rw [(ih _).1, (ih _).2]; exact ⟨rfl, rfl⟩
-        rw [(this _ h).1, (this _ h).2]; exact hinv
+        rw [(this _ h).1, (this _ h).2]; exact (nt ⟨nofun, nofun, fun _ _ _ => nofun⟩)
     · cases hx
   | updateParams a b c d p r =>
     simp only [hubExec] at hx
@@ -296,7 +311,7 @@ theorem hub_books_step (h h' : HubSt) (e : HubEnv) (sender : Addr) (funds : List
       unfold updateParams at hp
       exc_norm at hp
       exc_split at hp
-      all_goals exact plain [] hinv (fun _ hm => by cases hm)
+      all_goals exact plain [] (nt ⟨nofun, nofun, fun _ _ _ => nofun⟩) (fun _ hm => by cases hm)
   | receive user amt hook =>
     simp only [hubExec] at hx
     split at hx
@@ -380,7 +395,7 @@ theorem hub_books_step (h h' : HubSt) (e : HubEnv) (sender : Addr) (funds : List
       exc_norm at hx
       exc_split at hx
       all_goals
-        refine plain _ hinv ?_
+        refine plain _ (nt ⟨nofun, nofun, fun _ _ _ => nofun⟩) ?_
         intro y hy
         simp only [List.mem_append, List.mem_map, List.mem_cons, List.mem_nil_iff, or_false] at hy
         rcases hy with ⟨d, _, rfl⟩ | rfl | rfl <;> rfl
@@ -395,7 +410,7 @@ theorem hub_books_step (h h' : HubSt) (e : HubEnv) (sender : Addr) (funds : List
       subst hh
       show (List.foldl (fun hh i => hh.delWait sender i) h1 (h1.finished sender).2).bBond +
         (List.foldl (fun hh i => hh.delWait sender i) h1 (h1.finished sender).2).sBond ≤ T
-      rw [fs.2.2.2.2.2.1, fs.2.2.2.2.2.2.1, sp.2.2.2.2.2.2.2.2.1, sp.2.2.2.2.2.2.2.2.2.1]; exact hinv
+      rw [fs.2.2.2.2.2.1, fs.2.2.2.2.2.2.1, sp.2.2.2.2.2.2.2.2.1, sp.2.2.2.2.2.2.2.2.2.1]; exact (nt ⟨nofun, nofun, fun _ _ _ => nofun⟩)
   | checkSlashing =>
     simp only [hubExec] at hx; split at hx
     · cases hx
@@ -411,26 +426,26 @@ theorem hub_books_step (h h' : HubSt) (e : HubEnv) (sender : Addr) (funds : List
     · unfold updateConfig at hx
       exc_norm at hx
       exc_split at hx
-      refine plain _ hinv ?_
+      refine plain _ (nt ⟨nofun, nofun, fun _ _ _ => nofun⟩) ?_
       intro y hy
       cases a with
       | none => cases hy
       | some dd => simp at hy; subst hy; rfl
   | setOwner a =>
     simp only [hubExec] at hx; exc_norm at hx; exc_split at hx
-    exact plain [] hinv (fun _ hm => by cases hm)
+    exact plain [] (nt ⟨nofun, nofun, fun _ _ _ => nofun⟩) (fun _ hm => by cases hm)
   | acceptOwnership =>
     simp only [hubExec] at hx; exc_norm at hx; exc_split at hx
-    exact plain [] hinv (fun _ hm => by cases hm)
+    exact plain [] (nt ⟨nofun, nofun, fun _ _ _ => nofun⟩) (fun _ hm => by cases hm)
   | swapHook =>
     simp only [hubExec] at hx; exc_norm at hx; exc_split at hx
-    exact plain _ hinv (by intro y hy; simp at hy; subst hy; rfl)
+    exact plain _ (nt ⟨nofun, nofun, fun _ _ _ => nofun⟩) (by intro y hy; simp at hy; subst hy; rfl)
   | claimAirdrop =>
     simp only [hubExec] at hx; exc_norm at hx; exc_split at hx
-    exact plain _ hinv (by intro y hy; simp at hy; rcases hy with rfl | rfl <;> rfl)
+    exact plain _ (nt ⟨nofun, nofun, fun _ _ _ => nofun⟩) (by intro y hy; simp at hy; rcases hy with rfl | rfl <;> rfl)
   | redelegateProxy src plan =>
     simp only [hubExec] at hx; exc_norm at hx; exc_split at hx
-    refine plain _ hinv ?_
+    refine plain _ (nt ⟨nofun, nofun, fun _ _ _ => nofun⟩) ?_
     intro y hy
     simp only [List.mem_map] at hy
     obtain ⟨pp, _, rfl⟩ := hy
@@ -439,6 +454,16 @@ theorem hub_books_step (h h' : HubSt) (e : HubEnv) (sender : Addr) (funds : List
 /-! #### the chain side -/
 
 def totalDelegated (s : Sys) : Nat := (valUniverse.map s.chain.deleg).sum
+
+
+/-- the step from books within `T` (the form the reachability proofs use) -/
+theorem hub_books_step (h h' : HubSt) (e : HubEnv) (sender : Addr) (funds : List (Denom × Nat))
+    (m : HubMsg) (ms : List Msg) (T : Nat) (he : e.self = hubA)
+    (hT : (e.delegations.map (·.2)).sum = T) (hinv : h.bBond + h.sBond ≤ T)
+    (hx : hubExec h e sender funds m = .ok (h', ms)) :
+    ∃ pre rest, ms = pre ++ rest ∧ (∀ x ∈ pre, isStake x = true) ∧ (∀ x ∈ rest, isStake x = false) ∧
+      h'.bBond + h'.sBond + undelSum pre ≤ T + delSum pre :=
+  hub_books_stepG h h' e sender funds m ms T he hT (Or.inl hinv) hx
 
 /-- staking-module facts: stake sits only on known validators, and where no delegation object
     exists there is no stake -/
